@@ -173,6 +173,24 @@ def main():
         src.append("}")
         jobs.append({"files": {"main.fer": "\n".join(src) + "\n"}, "mode": "run"})
         meta.append(("accept", ty, items))
+    # the same literal written twice in one function, the first occurrence on a path that is NOT taken (other arm of an if, a loop that runs zero
+    # times, an earlier match arm, a closure that is never called): each occurrence has to materialise its own value
+    for ty, items in per_type_ok.items():
+        pick = items[:: max(1, len(items) // 4)][:4]
+        src = ['import "std/io";']
+        exp = []
+        for k, (txt, sv) in enumerate(pick):
+            src += ["fn br%d(c: bool) -> %s {\n    if c {\n        return %s;\n    }\n    return %s;\n}" % (k, ty, txt, txt),
+                    "fn lp%d(n: i32) -> %s {\n    let i: i32 = 0;\n    while i < n {\n        let w: %s = %s;\n        io::Println(w);\n        i = i + 1;\n    }\n    return %s;\n}" % (k, ty, ty, txt, txt),
+                    "fn ma%d(x: i32) -> %s {\n    match x {\n        1 => { return %s; }\n        _ => { return %s; }\n    }\n}" % (k, ty, txt, txt),
+                    "fn el%d(c: bool) -> %s {\n    let r: %s = 0;\n    if c {\n        r = %s;\n    } else {\n        r = %s;\n    }\n    return r;\n}" % (k, ty, ty, txt, txt)]
+        src.append("fn main() {")
+        for k, (txt, sv) in enumerate(pick):
+            src += ["    io::Println(br%d(false));" % k, "    io::Println(lp%d(0));" % k, "    io::Println(ma%d(2));" % k, "    io::Println(el%d(false));" % k, "    io::Println(br%d(true));" % k]
+            exp += [(txt, sv)] * 5
+        src.append("}")
+        jobs.append({"files": {"main.fer": "\n".join(src) + "\n"}, "mode": "run"})
+        meta.append(("accept-paths", ty, exp))
     for txt, ty, sv in rejects:
         pos = len(jobs) % 3
         if pos == 0:
@@ -186,6 +204,17 @@ def main():
     results = run_many(jobs)
     wc = {"programs": len(jobs), "accepted_values_checked": 0, "rejections_checked": 0}
     for (kind, ty, info), r, job in zip(meta, results, jobs):
+        if kind == "accept-paths":
+            got = r.lines if r.accepted and r.run_rc == 0 else []
+            for k, (txt, sv) in enumerate(info):
+                wc["accepted_values_checked"] += 1
+                g = got[k] if k < len(got) else None
+                if g != str(sv):
+                    posn = ["after an untaken if-branch holding the same literal", "after a zero-iteration loop holding the same literal", "in a later match arm", "in an else branch", "in the taken if-branch"][k % 5]
+                    rep.fail("printed-path:%s:%s" % (txt, ty), "literal %s : %s written twice in one function, occurrence %s, prints %s, its value is %d (compile exit %s, run exit %s)" % (txt, ty, posn, g, sv, r.compile_rc, r.run_rc),
+                             {"kind": "input", "files": job["files"], "line_index": k, "cmd": "ferret -o out main.fer && ./out", "expected": str(sv), "observed": g})
+                    break
+            continue
         if kind == "accept":
             if not r.accepted or r.run_rc != 0:
                 # find the literal(s) responsible by compiling them one by one
